@@ -261,3 +261,18 @@ func VF_C04_RemoveAll(prog, c int) {
 	vf.Assert("size-within-capacity", n <= c)
 	vf.Reach("end")
 }
+
+// VF_C04_SizeBound: while a producer is blocked in AddValue number c+1 an observer still sees at most c values.
+func VF_C04_SizeBound(c, _ int) {
+	q := col.Queue[int](nil).MakeWithCapacity(uint(c))
+	vf.Share(q)
+	vf.Go(producer(q, 0, c+1, nil))
+	vf.Go(consumer(q, 0, 1, false))
+	vf.Go(func() {
+		n := q.GetSize()
+		vf.Assert("size-within-capacity", vf.And(n >= 0, n <= c))
+	})
+	vf.TraceStart()
+	vf.WaitAll()
+	vf.Reach("end")
+}
